@@ -74,6 +74,10 @@ def c10_schema(backend: str) -> Dict[str, Any]:
     m["ov_ptr_cp"] = objvec(O, 1, ret_by="ptr", md=md_method(jet, "ov_ptr_cp", return_type_element=O + "*", return_type_collection=f"std::vector<{O}*>*"))
     m["w"] = obj("ns::Wrap", 0, md=md_method(jet, "w", return_type="ns::Wrap"))
     m["w2"] = obj("ns::Wrap2", 0, md=md_method(jet, "w2", return_type="ns::Wrap2"))
+    # total indirection 2, 3 and 4: pointer depth of the returned wrapper + deref_count of the member reached through it
+    m["w_p"] = obj("ns::Wrap", 1, md=md_method(jet, "w_p", return_type="ns::Wrap*"))
+    m["w2_p"] = obj("ns::Wrap2", 1, md=md_method(jet, "w2_p", return_type="ns::Wrap2*"))
+    m["w2_pp"] = obj("ns::Wrap2", 2, md=md_method(jet, "w2_pp", return_type="ns::Wrap2**"))
     m["color"] = {"k": "enum", "enum": "Color", "declared": True, "md": md_method(jet, "color", return_type=jet + "::Color", tree_type="int")}
     m["isColor"] = fn("bool", [("c", "Color")], '(int)c == (int)o->num("color")', lambda o, c: c == o["color"], md=md_method(jet, "isColor", return_type="bool"))
     s["c10_enum"] = {"metadata_type": "define_enum", "namespace": jet.replace("::", "."), "name": "Color", "values": ["Red", "Blue", "Green"]}
@@ -113,7 +117,7 @@ def templates(s, backend) -> List[Tuple[str, str, str]]:
               (mth, "where_member", f"j.{mth}().Where(lambda o: o.{mem}() > 10.0).Count()")]
         if mth != "tracks":
             T += [(mth, "nested_collection", f"j.{mth}().Select(lambda o: o.vals().Count())"), (mth, "chain_next_guarded", f"j.{mth}().Where(lambda o: o.hasNext()).Select(lambda o: o.next().val())")]
-    for mth in ("w", "w2"):
+    for mth in ("w", "w2", "w_p", "w2_p", "w2_pp"):
         T += [(mth, "deref_value", f"j.{mth}().inner_val()"), (mth, "deref_int", f"j.{mth}().inner_n()"), (mth, "deref_then_member", f"j.{mth}().inner_obj().val()"),
               (mth, "deref_arith", f"(j.{mth}().inner_val() * 2 - j.{mth}().inner_n())")]
     T += [("w", "own_member", "j.w().own()"), ("w2", "own_member", "j.w2().own2()")]
